@@ -21,3 +21,7 @@ func init() {
 func init() {
 	register("C04", "", ruleT3, ruleBranch)
 }
+
+func init() {
+	register("C05", "", ruleP7, ruleF2, ruleN5, ruleP2b)
+}
